@@ -172,6 +172,11 @@ class BeltStore(Store):
       
 
         """
+        # A granted space reservation is an item about to enter. Entries must be one item length
+        # (one slot) apart, and that gap can only be measured against items already on the belt, so
+        # the next entry is admitted only after the outstanding one has been used (or cancelled).
+        if self.reservations_put:
+            return
         # Check if there's enough space to reserve
         if self.items:
             if len(self.reservations_put) + len(self.items) +len(self.ready_items) < self.capacity:
